@@ -54,8 +54,8 @@ func (s *scope) pushForRange(loopVar string) (lVar, lLimit string) {
 	n := "_" + strconv.Itoa(s.n)
 	s.stack = append(s.stack, map[string]string{
 		loopVar:             loopVar + n,
-		loopVar + "__limit": loopVar + "Limit" + n,
-		loopVar + "__index": loopVar + n,
+		loopVar + ".limit": loopVar + "Limit" + n,
+		loopVar + ".index": loopVar + n,
 	})
 	return loopVar + n,
 		loopVar + "Limit" + n
@@ -66,8 +66,8 @@ func (s *scope) pushForEach(loopVar string) (lVar, lList, lLen, lIndex string) {
 	n := "_" + strconv.Itoa(s.n)
 	s.stack = append(s.stack, map[string]string{
 		loopVar:             loopVar + n,
-		loopVar + "__limit": loopVar + "Limit" + n,
-		loopVar + "__index": loopVar + "Index" + n,
+		loopVar + ".limit": loopVar + "Limit" + n,
+		loopVar + ".index": loopVar + "Index" + n,
 	})
 	return loopVar + n,
 		loopVar + "List" + n,
@@ -78,11 +78,11 @@ func (s *scope) pushForEach(loopVar string) (lVar, lList, lLen, lIndex string) {
 // looplimit returns the JS variable name for the limit of the loop over the
 // given loop variable.
 func (s *scope) looplimit(loopVar string) string {
-	return s.lookup(loopVar + "__limit")
+	return s.lookup(loopVar + ".limit")
 }
 
 // loopindex returns the JS variable name for the index of the loop over the
 // given loop variable.
 func (s *scope) loopindex(loopVar string) string {
-	return s.lookup(loopVar + "__index")
+	return s.lookup(loopVar + ".index")
 }
